@@ -376,12 +376,32 @@ def _never_none(e: ast.expr, fn, depth=0, parents=None, at=None) -> bool:
     if isinstance(e, (ast.JoinedStr, ast.BinOp)):
         return True
     if isinstance(e, ast.Call):
-        return call_name(e) in ("os.path.relpath", "os.path.basename", "re.sub", "str", "os.path.join",
-                                "os.path.abspath", "os.path.normpath")
+        if call_name(e) in ("os.path.relpath", "os.path.basename", "re.sub", "str", "os.path.join",
+                            "os.path.abspath", "os.path.normpath"):
+            return True
+        # a module-level helper all of whose returns are never None
+        if isinstance(e.func, ast.Name) and parents is not None:
+            mod_node = fn
+            while mod_node in parents:
+                mod_node = parents[mod_node]
+            for st in getattr(mod_node, "body", []):
+                if isinstance(st, ast.FunctionDef) and st.name == e.func.id:
+                    rets = [n for n in walk_no_nested(st) if isinstance(n, ast.Return)]
+                    return bool(rets) and all(r.value is not None and _never_none(r.value, st, depth + 1, parents, r) for r in rets)
+        return False
     if at is not None and parents is not None and isinstance(e, (ast.Name, ast.Attribute)):
         # guarded by `<e> is not None`
+        flat_guards = []
         for g in guards_of(fn, at, parents):
-            t = g.test
+            if isinstance(g.test, ast.BoolOp) and isinstance(g.test.op, ast.And) and g.polarity:
+                flat_guards.extend((v, True) for v in g.test.values)
+            elif isinstance(g.test, ast.BoolOp) and isinstance(g.test.op, ast.Or) and not g.polarity:
+                flat_guards.extend((v, False) for v in g.test.values)
+            else:
+                flat_guards.append((g.test, g.polarity))
+        from ..model import Guard
+        for t, pol in flat_guards:
+            g = Guard(t, pol, "flat")
             if isinstance(t, ast.Compare) and len(t.ops) == 1 and norm(t.left) == norm(e) \
                     and isinstance(t.comparators[0], ast.Constant) and t.comparators[0].value is None:
                 if (isinstance(t.ops[0], (ast.IsNot, ast.NotEq)) and g.polarity) or \
@@ -754,6 +774,72 @@ def classify_predicate(e: ast.expr) -> Optional[Tuple[str, str, bool, str]]:
     return None
 
 
+def loop_source(loop: ast.For, dm: DocumentModel, emission_calls=()):
+    """(base variable text, [classified predicates], [unclassified filter texts]) of a loop in the walk body: resolves
+    sorted()/list() wrappers, inline comprehensions, and locals defined once in the walk body by a comprehension; adds the
+    predicates of `if` statements in the loop body that guard the emission call."""
+    preds, unknown = [], []
+
+    def resolve(e, depth=0):
+        if depth > 5:
+            return norm(e)
+        while isinstance(e, ast.Call) and call_name(e) in ("sorted", "list", "tuple", "reversed", "copy.copy") and e.args:
+            e = e.args[0]
+        if isinstance(e, (ast.ListComp, ast.GeneratorExp)):
+            g = e.generators[0]
+            var = norm(g.target)
+            for c in g.ifs:
+                p = classify_predicate(c)
+                if p is not None:
+                    preds.append(p)
+                else:
+                    unknown.append(norm(c))
+            if norm(e.elt) != var:
+                unknown.append("maps " + norm(e.elt))
+            return resolve(g.iter, depth + 1)
+        if isinstance(e, ast.Call) and call_name(e) == "filter" and len(e.args) == 2:
+            unknown.append("filter(" + norm(e.args[0]) + ")")
+            return resolve(e.args[1], depth + 1)
+        if isinstance(e, ast.Name) and e.id not in (dm.files_var, dm.dirs_var):
+            defs = [n.value for n in walk_no_nested(dm.walk) if isinstance(n, ast.Assign) and len(n.targets) == 1
+                    and isinstance(n.targets[0], ast.Name) and n.targets[0].id == e.id]
+            if len(defs) == 1:
+                return resolve(defs[0], depth + 1)
+        return norm(e)
+
+    base = resolve(loop.iter)
+    # guards inside the loop body around the emission
+    for n in walk_no_nested(loop):
+        if isinstance(n, ast.If):
+            body_calls = [call_name(c).split(".")[-1] for st in n.body for c in calls_in(st)]
+            if any(c in emission_calls for c in body_calls):
+                tests = n.test.values if isinstance(n.test, ast.BoolOp) and isinstance(n.test.op, ast.And) else [n.test]
+                for t in tests:
+                    p = classify_predicate(t)
+                    if p is not None:
+                        preds.append(p)
+                    else:
+                        unknown.append(norm(t))
+    return base, preds, unknown
+
+
+def emission_loops(dm: DocumentModel):
+    """(toctree file loops, toctree dir loops, page loop) of the walk body."""
+    toc_file, toc_dir, page = [], [], None
+    for n in walk_no_nested(dm.walk):
+        if isinstance(n, ast.For) and n is not dm.walk:
+            body_calls = [call_name(c) for st in n.body for c in calls_in(st)]
+            if any(c.endswith("document_single_file") for c in body_calls):
+                page = n
+            elif any(c.endswith(".text") for c in body_calls):
+                base, _p, _u = loop_source(n, dm, ("text",))
+                if base == dm.dirs_var:
+                    toc_dir.append(n)
+                else:
+                    toc_file.append(n)
+    return toc_file, toc_dir, page
+
+
 def find_predicates(dm: DocumentModel):
     """All CMake-file predicates of document() with their role."""
     out = []
@@ -799,26 +885,29 @@ def rule_predicates_agree(rep: Report, repo: Repo, rule: str) -> None:
     rep.rule(rule, "the toctree file filter and the page-production filter are the same case-insensitive '.cmake' suffix "
                    "predicate; the two 'directory has a CMake file' checks use equal predicates")
     dm = DocumentModel(repo)
+    where = f"{MOD}:document"
+    toc_file, toc_dir, page = emission_loops(dm)
+    if not toc_file or page is None:
+        raise AnalysisError("anchor vanished: toctree file loop / page loop of document() not found")
+    _b1, p_toc, u_toc = loop_source(toc_file[0], dm, ("text",))
+    _b2, p_page, u_page = loop_source(page, dm, ("document_single_file",))
+
+    def canon(ps):
+        return sorted({(p[0], p[1].lower() if p[2] else p[1], p[2]) for p in ps})
+    same = canon(p_toc) == canon(p_page) and sorted(u_toc) == sorted(u_page)
+    rep.check(same, rule, where, f"toctree:{canon(p_toc)}{u_toc or ''} vs page:{canon(p_page)}{u_page or ''}"[:150],
+              "the toctree lists files by one filter and pages are produced by another: for some file a page is written that no "
+              "index lists, or an entry has no page", witness="a file literally named 'cmake' / FOO.CMAKE in the input directory",
+              key=f"{rule}|toctree-vs-page")
+    for r, ps in (("toctree", p_toc), ("page", p_page)):
+        ok = len(canon(ps)) == 1 and canon(ps)[0] == ("suffix", ".cmake", True)
+        rep.check(ok, rule, where, f"{r} predicate {canon(ps)}",
+                  f"the {r} filter is not exactly a case-insensitive '.cmake' suffix test",
+                  witness="FOO.CMAKE / a file named 'cmake'", key=f"{rule}|{r}-form")
     preds = find_predicates(dm)
     by_role: Dict[str, List] = {}
     for role, p, n in preds:
         by_role.setdefault(role, []).append((p, n))
-    where = f"{MOD}:document"
-    for r in ("toctree", "page"):
-        if r not in by_role:
-            raise AnalysisError(f"anchor vanished: no '{r}' CMake-file predicate recognised in document()")
-    t, pg = by_role["toctree"][0][0], by_role["page"][0][0]
-    same = (t[0], t[1].lower() if t[2] else t[1], t[2]) == (pg[0], pg[1].lower() if pg[2] else pg[1], pg[2])
-    rep.check(same, rule, where, f"toctree:{t[:3]} vs page:{pg[:3]}",
-              "the toctree lists files by one predicate and pages are produced by another: they differ on a file named "
-              "'cmake' (page written as '.rst', not listed) ", witness="a file literally named 'cmake' in the input directory",
-              key=f"{rule}|toctree-vs-page")
-    for r in ("toctree", "page"):
-        p = by_role[r][0][0]
-        ok = p[0] == "suffix" and p[1].lower() == ".cmake" and p[2]
-        rep.check(ok, rule, where, f"{r} predicate {p[:3]}",
-                  f"the {r} predicate is not a case-insensitive '.cmake' suffix test",
-                  witness="FOO.CMAKE / a file named 'cmake'", key=f"{rule}|{r}-form")
     if "precheck" in by_role and "owncheck" in by_role:
         a, b = by_role["precheck"][0][0], by_role["owncheck"][0][0]
         rep.check(a[:3] == b[:3], rule, where, f"precheck:{a[:3]} vs owncheck:{b[:3]}",
@@ -844,28 +933,15 @@ def rule_same_source(rep: Report, repo: Repo, rule: str) -> None:
         if isinstance(st, ast.Expr) and isinstance(st.value, ast.Call) and isinstance(st.value.func, ast.Attribute) \
                 and st.value.func.attr == "sort":
             sort_idx[norm(st.value.func.value)] = i
-    toc_loops = []
-    page_loop = None
-    for n in walk_no_nested(w):
-        if isinstance(n, ast.For) and n is not w:
-            body_calls = [call_name(c) for st in n.body for c in calls_in(st)]
-            if any(c.endswith(".text") for c in body_calls):
-                toc_loops.append(n)
-            if any(c.endswith("document_single_file") for c in body_calls):
-                page_loop = n
+    file_toc, dir_toc, page_loop = emission_loops(dm)
+    toc_loops = file_toc + dir_toc
     if page_loop is None or not toc_loops:
         raise AnalysisError("anchor vanished: toctree loops / page loop of document() not found")
 
     def iter_base(loop) -> str:
-        it = loop.iter
-        if isinstance(it, (ast.ListComp, ast.GeneratorExp)):
-            it = it.generators[0].iter
-        while isinstance(it, ast.Call) and call_name(it) in ("sorted", "list", "tuple") and it.args:
-            it = it.args[0]
-        return norm(it)
+        return loop_source(loop, dm)[0]
 
-    file_toc = [l for l in toc_loops if iter_base(l) == dm.files_var]
-    dir_toc = [l for l in toc_loops if iter_base(l) == dm.dirs_var]
+    file_toc = [l for l in file_toc if iter_base(l) == dm.files_var]
     rep.check(bool(file_toc), rule, where, "toctree file entries iterate the walk's file list",
               f"toctree file entries do not come from `{dm.files_var}`")
     rep.check(iter_base(page_loop) == dm.files_var, rule, where, "page production iterates the walk's file list",
@@ -875,7 +951,7 @@ def rule_same_source(rep: Report, repo: Repo, rule: str) -> None:
     # (whether the lists are sorted before use is a determinism question: judged by C17-R2 / C18-R6, not here)
     # no re-listing: the lists are not re-read from disk between filter and use
     for l in toc_loops + [page_loop]:
-        txt = norm(l.iter)
+        txt = norm(l.iter) + " <- " + iter_base(l)
         rep.check("listdir" not in txt and "scandir" not in txt and "glob" not in txt, rule, where,
                   f"iterable {txt[:50]}", "entries are re-read from disk, bypassing the exclusion filters")
     # subdirectory entries only under `recursive`
@@ -1262,4 +1338,4 @@ def rule_stem_agreement(rep: Report, repo: Repo, rule: str) -> None:
                       f"the toctree lists `{ttxt[:60]}` but the page is named by `{ptxt[:60]}`: for some processed file the entry has no "
                       f"generated target (and the page is unreachable)",
                       witness="Toolchain.CMake (mixed-case extension) or a.b.cmake (dot in the name)")
-    rep.floor(rule, 2, "stem computations")
+    rep.floor(rule, 1, "stem computations")
